@@ -14,6 +14,10 @@ error seen so far, the set of launched-but-not-reported routines).
 
 Atomic steps (`Ev`) are the steps an observer of the callbacks can see, plus one internal one:
 * `call a` / `ret a ok`  — Start / ManageModules / Shutdown is entered / returns,
+* `setGlob g i` — `SetGlobalPrepFn` / `SetGlobalShutdownFn` / `SetCmdLineOperation` is called with function number `i`
+                (the first two keep the FIRST function they were given, the third the LAST),
+* `glob g i ok` — Start ran the global prep function / the command-line operation, Shutdown ran the global
+                shutdown function (function number `i`; `ok` = it returned nil),
 * `beg k m`   — the manager's scan found `readyToX(m) = statusReady` and ran `m.prep/start/stop(reports)`:
                 status := Preparing/Starting/Stopping, `execCnt++`, the routine begins,
 * `fin k m ok` — the routine returned; the goroutine wrote the resulting status and its report was
@@ -28,8 +32,19 @@ start pass, ≤ Offline is stable during a stop pass). A scan is not atomic in t
 happen whenever the verdict is Ready, and a pass may only end when no verdict is Ready ("launch every ready
 module") and nothing is in flight. After an error report the code launches nothing more; the model is more
 permissive there (launches stay possible until the pass ends), which only enlarges the set of runs the
-theorems cover. The 2-minute start / 1-minute stop timeouts, flag parsing, the global prep function and
-command-line operations are not modelled.
+theorems cover.
+
+Calls outside the histories the property quantifies over are modelled as the code is written:
+ManageModules before Start (nothing is linked yet: `buildEnabledTree` only resets the marks, every enabled
+module is unprepared and counts as waiting), Start after a Shutdown that was not preceded by Start (runs
+like any first Start: `Start` does not look at the shutdown flag), ManageModules after Shutdown (its stop
+pass ignores the enabled marks, its start pass starts the wanted modules again). What the property says
+about Shutdown therefore holds for histories in which Shutdown is final (`Spec.ShutdownFinal`).
+
+Not modelled: the 2-minute start / 1-minute stop timeouts, flag parsing (`-help`, `-print-module-graph`),
+a failing `log.Start`, panics of the global functions (they propagate to the caller of Start / Shutdown),
+ManageModules after a Start that failed in `initDependencies` (how many edges were linked before the
+unregistered name was met depends on map iteration order), concurrent API callers.
 -/
 namespace PB.Modules
 open PB.Gen.Lifecycle
@@ -42,9 +57,17 @@ inductive Api where
   | start | manage | shutdown
   deriving DecidableEq, Repr
 
+/-- The three process-wide functions Start / Shutdown run besides the module routines:
+    `globalPrepFn` (SetGlobalPrepFn), `globalShutdownFn` (SetGlobalShutdownFn), `cmdLineOperation`. -/
+inductive Glob where
+  | prep | shutdown | cmd
+  deriving DecidableEq, Repr
+
 /-- Where the manager is. -/
 inductive Pc where
   | idle                          -- no API call in progress
+  | glob (g : Glob)               -- Start is about to run the global prep function / the command-line operation,
+                                  -- Shutdown the global shutdown function
   | prep                          -- Start: prepareModules
   | startS                        -- Start: startModules
   | stopM                         -- ManageModules: stopModules
@@ -61,6 +84,8 @@ inductive Ev where
   | passEnd
   | enable (m : Nat)
   | disable (m : Nat)
+  | setGlob (g : Glob) (i : Nat)
+  | glob (g : Glob) (i : Nat) (ok : Bool)
   deriving DecidableEq, Repr
 
 structure St where
@@ -78,6 +103,7 @@ structure St where
   failed : Bool                    -- prep/start pass: an error report was received; stop pass: lastErr ≠ nil
   stopErr : Bool                   -- ManageModules: lastErr of its stop pass
   running : List Nat               -- launched, report not yet received
+  gfn : Glob → Option Nat          -- globalPrepFn / globalShutdownFn / cmdLineOperation (`none` = nil)
 
 def set {α : Type} (f : Nat → α) (i : Nat) (v : α) : Nat → α := fun j => if j = i then v else f j
 
@@ -85,7 +111,7 @@ def set {α : Type} (f : Nat → α) (i : Nat) (v : α) : Nat → α := fun j =>
 def init (n : Nat) (deps : Nat → List Nat) (mgmt : Bool) : St :=
   { n := n, deps := deps, mgmt := mgmt, status := fun _ => statusDead, enabled := fun _ => false,
     asDep := fun _ => false, locked := false, shutdown := false, pc := .idle, execCnt := 0, reportCnt := 0,
-    failed := false, stopErr := false, running := [] }
+    failed := false, stopErr := false, running := [], gfn := fun _ => none }
 
 /-- `depReverse` as linked by `initDependencies`: the registered modules that name `d` as dependency. -/
 def revDeps (s : St) (d : Nat) : List Nat := (List.range s.n).filter (fun r => (s.deps r).contains d)
@@ -162,21 +188,25 @@ def enterPass (s : St) (pc : Pc) : St :=
 def stepCall (s : St) : Api → Option St
   | .start =>
     if s.pc ≠ .idle then none
-    else if s.shutdown then none                                             -- Start after Shutdown: not modelled
     else if s.locked then some { s with pc := .done .start false }          -- "module system already started"
     else
+      -- (the shutdown flag is not looked at: a first Start after Shutdown runs like any first Start)
       let s := { s with locked := true }
       if !depsRegistered s then some { s with pc := .done .start false }    -- initDependencies error
+      else if (s.gfn .prep).isSome then some { s with pc := .glob .prep }   -- "execute global prep fn"
       else some (enterPass s .prep)
   | .manage =>
     if s.pc ≠ .idle then none
     else if !s.mgmt then some { s with pc := .done .manage true }           -- management disabled: nothing happens
-    else if !s.locked then none                                              -- ManageModules before Start: not modelled
-    else if s.shutdown then none                                             -- ManageModules after Shutdown: not modelled
+    else if !s.locked then
+      -- before Start no dependency is linked (`depModules` is empty): buildEnabledTree only resets the marks
+      some (enterPass { s with asDep := fun _ => false } .stopM)
+    else if !depsRegistered s then none           -- after a Start that failed in initDependencies: not modelled
     else some (enterPass (buildEnabledTree s) .stopM)
   | .shutdown =>
     if s.pc ≠ .idle then none
     else if s.shutdown then some { s with pc := .done .shutdown false }     -- "shutdown already initiated"
+    else if (s.gfn .shutdown).isSome then some { s with shutdown := true, pc := .glob .shutdown }
     else some (enterPass { s with shutdown := true } .stopX)
 
 def stepRet (s : St) (a : Api) (ok : Bool) : Option St :=
@@ -216,6 +246,7 @@ def stepPassEnd (s : St) : Option St :=
     if s.failed then some { s with pc := .done .start false }
     else if !noneReady s .prep then none
     else if anyWaiting s .prep then some { s with pc := .done .start false }   -- "dependency loop detected"
+    else if (s.gfn .cmd).isSome then some { s with pc := .glob .cmd }          -- "execute command if available"
     else some (enterPass (buildEnabledTree s) .startS)
   | .startS =>
     if s.failed then some { s with pc := .done .start false }
@@ -238,6 +269,27 @@ def stepPassEnd (s : St) : Option St :=
 def stepEnable (s : St) (m : Nat) (v : Bool) : Option St :=
   if s.pc = .idle ∧ m < s.n then some { s with enabled := set s.enabled m v } else none
 
+/-- `SetGlobalPrepFn` / `SetGlobalShutdownFn` (`if globalXFn == nil { globalXFn = fn }`: the first function
+    stays) and `SetCmdLineOperation` (plain assignment: the last function stays). In the histories they are
+    called between the API calls. -/
+def stepSetGlob (s : St) (g : Glob) (i : Nat) : Option St :=
+  if s.pc ≠ .idle then none else
+  match g with
+  | .cmd => some { s with gfn := fun x => if x = .cmd then some i else s.gfn x }
+  | _ => if (s.gfn g).isSome then some s else some { s with gfn := fun x => if x = g then some i else s.gfn x }
+
+/-- Start runs the global prep function (an error ends Start before anything is prepared) or, after all
+    modules are prepared, the command-line operation (Start then returns ErrCleanExit whatever the operation
+    returned); Shutdown runs the global shutdown function first (it has no result). -/
+def globNext (s : St) : Glob → Bool → St
+  | .prep, true => enterPass s .prep
+  | .prep, false => { s with pc := .done .start false }
+  | .shutdown, _ => enterPass s .stopX
+  | .cmd, _ => { s with pc := .done .start false }
+
+def stepGlob (s : St) (g : Glob) (i : Nat) (ok : Bool) : Option St :=
+  if s.pc = .glob g ∧ s.gfn g = some i then some (globNext s g ok) else none
+
 def step (s : St) : Ev → Option St
   | .call a => stepCall s a
   | .ret a ok => stepRet s a ok
@@ -246,6 +298,8 @@ def step (s : St) : Ev → Option St
   | .passEnd => stepPassEnd s
   | .enable m => stepEnable s m true
   | .disable m => stepEnable s m false
+  | .setGlob g i => stepSetGlob s g i
+  | .glob g i ok => stepGlob s g i ok
 
 /-- Run a whole history. -/
 def run (s : St) : List Ev → Option St
